@@ -192,9 +192,7 @@ def run(ctx, rep):
                 rng = T.agg("adt", "ops::Range", 0, "Range", [T.const("usize", 0), T.const("usize", 16)])
                 good = a is T.payload(T.call("[T]::get", ("u8", "ops::Range<usize>"), [p1, rng]), "Some")
             else:
-                src = None
-                if a.op == "payload" and a.args[1] == "Ok" and a.args[0].op == "fresh":
-                    src = an.calls_by_block.get(a.args[0].args[0][1])
+                src = an.call_site_of(a) if a.op == "payload" and a.args[1] == "Ok" else None
                 good = (src is not None and src.callee_qual == reader and src.args[1] is T.const("usize", 0) and src.args[2] is T.const("usize", 16))
         rep.require(good, "feed", q, w, "parse_ident::<E>(file bytes [0,16))",
                     "%s does not pass exactly bytes [0,16) of the file to parse_ident::<E> (args: %s)" % (q, [pp(x) for c in pcs for x in c.args]))
